@@ -167,8 +167,11 @@ fn run_case(cache: &mut SegCache, src: AsIdx, dst: AsIdx, inp: &Input, reference
             // hop-field id pairs at positions where an interface is NOT crossed (first hop of a
             // shortcut / on-path segment) are the only difference?
             let raw = |o: &Obs| RStdPath::parse(&o.bytes).map(|p| p.hops.iter().map(|h| (h.cons_ingress, h.cons_egress)).collect::<Vec<_>>()).unwrap_or_default();
+            let lens = |o: &Obs| RStdPath::parse(&o.bytes).map(|p| p.seg_len).unwrap_or_default();
             let cause = if obs[first].fingerprint == obs[k].fingerprint {
                 "equal-fingerprints"
+            } else if lens(&obs[first]) != lens(&obs[k]) {
+                "different-segmentation"
             } else if flags(&obs[first]) != flags(&obs[k]) {
                 "segment-beaconed-in-opposite-direction"
             } else if raw(&obs[first]) != raw(&obs[k]) {
@@ -189,6 +192,17 @@ fn run_case(cache: &mut SegCache, src: AsIdx, dst: AsIdx, inp: &Input, reference
         if !seen.contains(s) {
             let kind = r.kinds.iter().next().unwrap().name();
             v(&format!("missing-path:{kind}"), format!("R-combine derives {} ({:?}); real result lacks it", util::hopseq_str(topo, s), r.kinds));
+        }
+    }
+    // segmentation: the SegLen values of every returned path must be those of a rule instance
+    for (k, sq) in seqs.iter().enumerate() {
+        if let (Some(sq), Ok(p)) = (sq, RStdPath::parse(&obs[k].bytes)) {
+            if let Some(r) = reference.get(sq) {
+                let shape: Vec<usize> = p.seg_len.iter().map(|x| *x as usize).filter(|x| *x > 0).collect();
+                if !r.shapes.contains(&shape) {
+                    v("segmentation-not-derivable-by-combination-rules", format!("{}: data-plane path has segment lengths {shape:?}, the rules give {:?}", util::hopseq_str(topo, sq), r.shapes));
+                }
+            }
         }
     }
     // cheapest first
@@ -327,6 +341,7 @@ fn explore(run: &vpc::Run, topo: &Topo, topo_idx: usize, full_every: usize) -> T
             let inputs = variants(&cache, src, dst, full);
             let mut ref_cache: BTreeMap<(Vec<SegRef>, Vec<SegRef>), BTreeMap<HopSeq, RPath>> = BTreeMap::new();
             let mut base_set: Option<BTreeSet<RealPath>> = None;
+            let mut reported: BTreeSet<String> = BTreeSet::new();
             for inp in &inputs {
                 // R-combine depends on the multiset of distinct segments only
                 let mut key = (inp.cores.clone(), inp.non_cores.clone());
@@ -375,6 +390,9 @@ fn explore(run: &vpc::Run, topo: &Topo, topo_idx: usize, full_every: usize) -> T
                 }
                 *t.outcomes.entry(format!("variant:{}", inp.tag.split(|c: char| c.is_ascii_digit()).next().unwrap_or("").trim_end_matches('-'))).or_default() += 1;
                 for (class, what) in viol {
+                    if !reported.insert(class.clone()) {
+                        continue; // one witness per (topology, pair, class)
+                    }
                     let w = witness(topo, src, dst, inp, &mut cache);
                     run.violation(&class, &format!("{} {}->{} [{}]: {}", topo.name, src, dst, inp.tag, what), w);
                 }
@@ -478,6 +496,7 @@ pub fn run(args: &vpc::Args) -> ! {
         "exploration",
         json!({
             "evaluations": total.calls,
+            "violation_counting": "one count per (topology, ordered pair, class)",
             "reference_evaluations": total.ref_calls,
             "distinct_nontrivial": d.len(),
             "rule": "distinct (topology incl. interface numbering, ordered src/dst pair) for which R-combine derives at least one path; evaluations = calls of the real combine()",
